@@ -136,6 +136,13 @@ def features(term, value, env, tags='EXPLICIT', ext_implied=False, codec='per', 
                 # character value with 2^b - 1
                 if al.asis and n > 0:
                     feats.add('alpha-not-reindexed')
+                # NumericString in the ALIGNED variant with 5..11 permitted characters (4 bits): the
+                # implementation keeps the index in " 0123456789" because 11 < 2^4, X.691 27.5.6 b)
+                # re-indexes (the ISO 646 value of the largest character exceeds 15)
+                if k == 'NumericString' and aligned and al.b == 4 and not al.asis:
+                    native = {c: i for i, c in enumerate(ref_per.NUMERIC)}
+                    if any(native.get(c) != al.index.get(c) for c in v):
+                        feats.add('alpha-native-index')
 
     def walk(t, v, in_of):
         if isinstance(t, Ref):
@@ -171,6 +178,26 @@ def features(term, value, env, tags='EXPLICIT', ext_implied=False, codec='per', 
             if t.is_set and len(root) >= 2 and not tagging.auto_tagged(t, tags) \
                     and not all(_own_tag(m.t, env) for m in root):
                 feats.add('set-untagged-member')
+            for m in all_members(t):
+                # shapes of the shared parser findings KF-DEFAULT-* (known/c01.json): the parser keeps the
+                # DEFAULT of these component types in a representation the codecs do not use
+                if m.q == 'D':
+                    rt = m.t
+                    n = 0
+                    while isinstance(rt, (Ref, Tag)) and n < 30:
+                        rt = env[rt.name] if isinstance(rt, Ref) else rt.inner
+                        n += 1
+                    if isinstance(rt, Leaf):
+                        if rt.kind == 'OID':
+                            feats.add('default-oid')
+                        elif rt.kind == 'REAL':
+                            feats.add('default-real')
+                        elif rt.is_string() and isinstance(m.default, str):
+                            try:
+                                float(m.default)
+                                feats.add('default-numeric-looking-string')
+                            except ValueError:
+                                pass
             ext = t.ext or ext_implied
             present_adds = 0
             for a in t.adds:
@@ -230,7 +257,7 @@ def features(term, value, env, tags='EXPLICIT', ext_implied=False, codec='per', 
     return feats
 
 
-def type_features(term, env, tags='EXPLICIT', ext_implied=False):
+def type_features(term, env, tags='EXPLICIT', ext_implied=False, numeric=False):
     """Shapes of the *type* alone (for failures to compile)."""
     feats = set()
     seen = set()
@@ -250,6 +277,14 @@ def type_features(term, env, tags='EXPLICIT', ext_implied=False):
                 if len(root) >= 2 and not tagging.auto_tagged(t, tags) and not all(_own_tag(m.t, env) for m in root):
                     feats.add('set-untagged-member')
             for m in all_members(t):
+                if numeric and isinstance(t, Seq) and m.q == 'D':
+                    rt = m.t
+                    n = 0
+                    while isinstance(rt, (Ref, Tag)) and n < 30:
+                        rt = env[rt.name] if isinstance(rt, Ref) else rt.inner
+                        n += 1
+                    if isinstance(rt, Leaf) and rt.kind == 'ENUMERATED' and rt.enum_adds is not None:
+                        feats.add('default-extensible-enum-numeric')
                 walk(m.t)
     walk(term)
     return feats
@@ -321,6 +356,13 @@ def c05_set_untagged_member_typeerror(f):
                                                   f.get('ext_implied', False))
 
 
+def c05_default_extensible_enum_numeric_enums(f):
+    if f.get('kind') != 'compile-raised-foreign' or 'TypeError' not in (f.get('detail') or '') or '_term' not in f:
+        return False
+    return f.get('numeric') and 'default-extensible-enum-numeric' in type_features(
+        f['_term'], f['_env'], f.get('tags', 'EXPLICIT'), f.get('ext_implied', False), True)
+
+
 def c05_small_number_not_aligned(f):
     return f.get('codec') == 'per' and (_has(f, 'small-number>=64-aligned', ENC + DEC)
                                         or _has(f, 'small-length>64-aligned', ENC + DEC))
@@ -356,7 +398,7 @@ def c05_extensibility_implied_not_nested(f):
 
 
 def c05_permitted_alphabet_reindexing(f):
-    return _has(f, 'alpha-not-reindexed', ANY)
+    return _has(f, 'alpha-not-reindexed', ANY) or (f.get('codec') == 'per' and _has(f, 'alpha-native-index', ENC + DEC))
 
 
 def c05_bmp_permitted_alphabet(f):
